@@ -19,6 +19,7 @@ type State struct {
 	heap   map[string]Term
 	pc     Term
 	dead   bool
+	kinds  map[string]int // interface value term -> dynamic kind known on this path (type switch / assertion)
 	probe  *[]string // non-nil: heap reads resolve to formal parameters hp!<key> (recursive spec function bodies)
 	leaves [][]Term // conjunctions; pc implies their disjunction (joined paths, used to case-split hard obligations)
 }
@@ -26,6 +27,12 @@ type State struct {
 func (s *State) clone() *State {
 	n := &State{vars: make(map[types.Object]Term, len(s.vars)), heap: make(map[string]Term, len(s.heap)), pc: s.pc, dead: s.dead}
 	n.leaves = append([][]Term(nil), s.leaves...)
+	if len(s.kinds) > 0 {
+		n.kinds = make(map[string]int, len(s.kinds))
+		for k, v := range s.kinds {
+			n.kinds[k] = v
+		}
+	}
 	for k, v := range s.vars {
 		n.vars[k] = v
 	}
@@ -128,6 +135,7 @@ type Exec struct {
 	recKeys        map[string][]string
 	usedLemmas     []string
 	revealOpaque   bool
+	calledContracts map[string]bool
 }
 
 type modLoc struct {
@@ -136,6 +144,14 @@ type modLoc struct {
 	lo, hi Term // for element memories: index range [lo,hi); for fields unused
 	isElem bool
 	any    bool // any ref of this key (coarse)
+	cond   Term // location only counts when cond holds (zero value: always)
+}
+
+func (m modLoc) when() Term {
+	if m.cond.S == "" {
+		return True
+	}
+	return m.cond
 }
 
 type Options struct {
@@ -379,6 +395,14 @@ func (e *Exec) merge(states []*State) *State {
 		return live[0]
 	}
 	out := live[0].clone()
+	for k, v := range out.kinds {
+		for _, s := range live[1:] {
+			if s.kinds[k] != v {
+				delete(out.kinds, k)
+				break
+			}
+		}
+	}
 	var pcs []Term
 	for _, s := range live {
 		pcs = append(pcs, s.pc)
@@ -494,6 +518,25 @@ func (e *Exec) merge(states []*State) *State {
 		out.heap[k] = nv
 	}
 	return out
+}
+
+// contOf is the interface value holding the pointer ptr of dynamic type code; when ptr was
+// obtained by narrowing an interface value x on this path, that value itself is returned.
+func (st *State) contOf(code int, ptr Term) Term {
+	if strings.HasPrefix(ptr.S, "(c_ref ") {
+		x := ptr.S[len("(c_ref ") : len(ptr.S)-1]
+		if st != nil && st.kinds[x] == code {
+			return Term{x, SCont}
+		}
+	}
+	return MkCont(IntLit(int64(code)), ptr)
+}
+
+func (st *State) learnKind(x Term, code int) {
+	if st.kinds == nil {
+		st.kinds = map[string]int{}
+	}
+	st.kinds[x.S] = code
 }
 
 func sameTerms(a, b []Term) bool {
